@@ -150,7 +150,11 @@ func (o *ordersim) runDriverEnv(jobs []Job, extraEnv []string) []Result {
 
 type Warm struct {
 	OtherProjectSeed uint64 `json:"other_project_seed,omitempty"` // generate this (other) project first
-	Engine           string `json:"engine"`
+	// SiblingRev: generate a sibling of the SAME project first - identical configuration and relative
+	// template paths, other content in the template-extension files (a template edited between two
+	// generations of one long-lived process)
+	SiblingRev bool   `json:"sibling_rev,omitempty"`
+	Engine     string `json:"engine"`
 }
 
 type OrderRun struct {
@@ -197,6 +201,10 @@ func (o *ordersim) execRunEnv(p *projgen.Project, r OrderRun, extraEnv []string)
 		wp, wdir := p, dir
 		if w.OtherProjectSeed != 0 {
 			wp = projgen.Generate(w.OtherProjectSeed, "order")
+			wdir = o.materialise(wp)
+		} else if w.SiblingRev {
+			wp = cloneProject(p)
+			wp.ExtRev = "edited-before"
 			wdir = o.materialise(wp)
 		}
 		cf := mk(wp, wdir, w.Engine, true, fmt.Sprintf("w%d", wi))
@@ -359,8 +367,12 @@ func (o *ordersim) drawRun(r *projgen.Rand, engines []string, allowWarm bool) Or
 		n := r.Range(1, 3)
 		for i := 0; i < n; i++ {
 			w := Warm{Engine: projgen.Pick(r, projgen.Engines)}
-			if r.Chance(1, 2) {
+			switch r.Intn(4) {
+			case 0, 1:
 				w.OtherProjectSeed = 900001 + uint64(r.Intn(3))
+			case 2:
+				w.SiblingRev = true
+				w.Engine = run.Engine
 			}
 			run.Warmups = append(run.Warmups, w)
 		}
